@@ -620,6 +620,10 @@ def run_defaults(case):
                     continue
                 for attr in sorted((set(a) | set(b)) - {"choices"}):
                     n += 1
+                    # only what the statement names is a violation by declaration alone: the approved constant itself and the
+                    # developer-only flag; bounds / types are enforced behaviourally (invalid_accepted / valid_rejected)
+                    if attr not in ("default", "developer"):
+                        continue
                     if not sr.json_equal(a.get(attr), b.get(attr)):
                         viol.append({"clause": "declaration_drift", "key": {"family": fam, "field": dotted, "attr": attr},
                                      "detail": f"{fam}.{dotted}.{attr}: code declares {b.get(attr)!r}, approved table says {a.get(attr)!r}"})
